@@ -230,7 +230,7 @@ func precedes(a, b Site) bool {
 	if a.Block == b.Block {
 		return a.Idx < b.Idx
 	}
-	return a.Block.Dominates(b.Block)
+	return dominates(a.Block, b.Block)
 }
 
 // ---------- values ----------
@@ -1005,4 +1005,163 @@ func closureBinding(parent, g *ssa.Function, i int) ssa.Value {
 		}
 	})
 	return out
+}
+
+// ---------- comparisons, whichever way round they are written ----------
+
+type cmpView struct {
+	Op   token.Token
+	X, Y ssa.Value
+}
+
+func mirrorOp(op token.Token) token.Token {
+	switch op {
+	case token.LSS:
+		return token.GTR
+	case token.GTR:
+		return token.LSS
+	case token.LEQ:
+		return token.GEQ
+	case token.GEQ:
+		return token.LEQ
+	}
+	return op
+}
+
+// cmpViews: the comparison as written and with its operands exchanged (a < b is b > a); rules match whichever fits.
+func cmpViews(bo *ssa.BinOp) []cmpView {
+	switch bo.Op {
+	case token.LSS, token.GTR, token.LEQ, token.GEQ, token.EQL, token.NEQ:
+		return []cmpView{{bo.Op, bo.X, bo.Y}, {mirrorOp(bo.Op), bo.Y, bo.X}}
+	}
+	return []cmpView{{bo.Op, bo.X, bo.Y}}
+}
+
+// ifCmp is one way of reading the comparison that ends a block: Op(X, Y) holds on T and fails on F.
+type ifCmp struct {
+	Op   token.Token
+	X, Y ssa.Value
+	T, F *ssa.BasicBlock
+}
+
+// ifCmpForms: all equivalent readings of the comparison that ends block b — as written, with the operands exchanged,
+// and each of them negated with the successors exchanged (`if a <= b {A} else {B}` is `if a > b {B} else {A}`; the
+// builder compiles `if !(a <= b)` to exactly that). Integer, string and pointer comparisons only.
+func ifCmpForms(b *ssa.BasicBlock) []ifCmp {
+	if len(b.Instrs) == 0 {
+		return nil
+	}
+	iff, ok := b.Instrs[len(b.Instrs)-1].(*ssa.If)
+	if !ok {
+		return nil
+	}
+	bo, ok := iff.Cond.(*ssa.BinOp)
+	if !ok || isFloatOperand(bo.X) {
+		return nil
+	}
+	var out []ifCmp
+	for _, v := range cmpViews(bo) {
+		out = append(out, ifCmp{v.Op, v.X, v.Y, b.Succs[0], b.Succs[1]})
+		out = append(out, ifCmp{negateCmp(v.Op), v.X, v.Y, b.Succs[1], b.Succs[0]})
+	}
+	return out
+}
+
+// ---------- dominators (own computation: the CFG is normalised after the SSA build, see threadStoredConditions) ----------
+
+var domCache = map[*ssa.Function]map[*ssa.BasicBlock]*ssa.BasicBlock{}
+
+// idoms computes immediate dominators of the reachable blocks of fn (Cooper, Harvey, Kennedy).
+func idoms(fn *ssa.Function) map[*ssa.BasicBlock]*ssa.BasicBlock {
+	if m, ok := domCache[fn]; ok {
+		return m
+	}
+	idom := map[*ssa.BasicBlock]*ssa.BasicBlock{}
+	if len(fn.Blocks) == 0 {
+		domCache[fn] = idom
+		return idom
+	}
+	// reverse postorder from the entry (the recover block is a second root: it is only dominated by itself)
+	var order []*ssa.BasicBlock
+	seen := map[*ssa.BasicBlock]bool{}
+	var dfs func(b *ssa.BasicBlock)
+	dfs = func(b *ssa.BasicBlock) {
+		seen[b] = true
+		for _, s := range b.Succs {
+			if !seen[s] {
+				dfs(s)
+			}
+		}
+		order = append(order, b)
+	}
+	entry := fn.Blocks[0]
+	dfs(entry)
+	rpoNum := map[*ssa.BasicBlock]int{}
+	for i := range order {
+		rpoNum[order[len(order)-1-i]] = i
+	}
+	idom[entry] = entry
+	intersect := func(a, b *ssa.BasicBlock) *ssa.BasicBlock {
+		for a != b {
+			for rpoNum[a] > rpoNum[b] {
+				a = idom[a]
+			}
+			for rpoNum[b] > rpoNum[a] {
+				b = idom[b]
+			}
+		}
+		return a
+	}
+	changed := true
+	for changed {
+		changed = false
+		for i := len(order) - 2; i >= 0; i-- { // reverse postorder, entry excluded
+			b := order[i]
+			var nd *ssa.BasicBlock
+			for _, p := range b.Preds {
+				if _, done := idom[p]; !done {
+					continue
+				}
+				if nd == nil {
+					nd = p
+				} else {
+					nd = intersect(p, nd)
+				}
+			}
+			if nd != nil && idom[b] != nd {
+				idom[b] = nd
+				changed = true
+			}
+		}
+	}
+	domCache[fn] = idom
+	return idom
+}
+
+// dominates: every path from the entry of the function to b passes a (a block dominates itself).
+func dominates(a, b *ssa.BasicBlock) bool {
+	if a == nil || b == nil || a.Parent() != b.Parent() {
+		return false
+	}
+	if a == b {
+		return true
+	}
+	idom := idoms(a.Parent())
+	if _, ok := idom[b]; !ok {
+		return false // unreachable (or the recover block)
+	}
+	entry := a.Parent().Blocks[0]
+	for x := b; ; {
+		d, ok := idom[x]
+		if !ok {
+			return false
+		}
+		if d == a {
+			return true
+		}
+		if x == entry || d == x {
+			return false
+		}
+		x = d
+	}
 }
